@@ -20,9 +20,10 @@ set_status(st):   prev = status.fetch_max(st)                  -- `publish a t s
 A call that is not elected returns at once — also while the elected caller is still inside its block.  That is the
 whole point: "the status word is ≥ Stopping" does NOT mean "the name has been removed".
 
-The constructor is one atomic step here (`spawn`: name insert if vacant, pid insert); its interleavings are the
-subject of `Reg2` and touch only cells nobody has a reference to yet (no `set_status` possible on them).  The pid
-monitors and their event log are not repeated here either.
+The constructor is the same program as in `Reg2` (`new` ; `regName` ; `regPid` / `regPidFail` ; `rollback`, one
+DashMap operation each), so every interleaving of `Reg2` without monitors is a run of this model with one thread
+per cell.  While a cell is under construction nobody has a reference to it: `set_status` is enabled only once the
+constructor has returned `Ok` (`born`).  The pid monitors and their event log are not repeated here.
 
 Ghost fields (never read by a step that changes a table or the status word): `el` = the thread whose call won
 the election of the cell, `done a t` = the highest status of which a `set_status` call by `t` on `a` has RETURNED.
@@ -39,12 +40,23 @@ inductive TPc
   | blk (rest : List Stmt) (st : Nat)   -- elected, statements of the cleanup block still to run
   deriving DecidableEq, Repr
 
+/-- where the constructor `ActorCell::new` of a cell is (`Reg2.Pc` without `live`/`blk`) -/
+inductive CPc | none | name | pid | rollback | failed | done
+  deriving DecidableEq, Repr
+
+/-- the cell's name entry may be in the table as far as the constructor is concerned -/
+def CPc.holds : CPc → Bool
+  | .pid | .rollback | .done => true
+  | _ => false
+
 structure Cell where
   name : Option Nat := none
   remote : Bool := false
   status : Nat := 0
   /-- the constructor has returned `Ok`: references to the cell exist -/
   born : Bool := false
+  /-- program counter of the constructor -/
+  cons : CPc := .none
   /-- ghost: the thread whose `set_status` call was elected to run the cleanup block -/
   el : Option Nat := none
   deriving DecidableEq, Repr
@@ -61,7 +73,11 @@ structure State where
 def init : State := {}
 
 inductive Op
-  | spawn (a : Nat) (name : Option Nat)
+  | new (a : Nat) (name : Option Nat)
+  | regName (a : Nat)
+  | regPid (a : Nat)
+  | regPidFail (a : Nat)
+  | rollback (a : Nat)
   | spawnRemote (a : Nat) (name : Option Nat)
   | publish (a t st : Nat)
   | bstep (a t : Nat)
@@ -80,19 +96,33 @@ def exec (s : State) (a : Nat) : Stmt → State
     | none => s
 
 def step (s : State) : Op → State
-  | .spawn a name =>
-    if (s.cell a).born = false then
-      match name with
-      | none => { s with cell := upd s.cell a { born := true }, pids := upd s.pids a true }
-      | some n =>
-        if s.names n = none then
-          { s with cell := upd s.cell a { name := some n, born := true },
-                   names := upd s.names n (some a), pids := upd s.pids a true }
-        else s            -- `AlreadyRegistered`: the cell is dropped, nothing changes
+  | .new a name =>
+    if (s.cell a).born = false ∧ (s.cell a).cons = .none then
+      { s with cell := upd s.cell a { name := name, cons := if name.isSome then .name else .pid } }
     else s
+  | .regName a =>
+    match (s.cell a).cons, (s.cell a).name with
+    | .name, some n =>
+      if s.names n = none then
+        { s with cell := upd s.cell a { s.cell a with cons := .pid }, names := upd s.names n (some a) }
+      else { s with cell := upd s.cell a { s.cell a with cons := .failed } }   -- `AlreadyRegistered`
+    | _, _ => s
+  | .regPid a =>
+    if (s.cell a).cons = .pid then
+      { s with cell := upd s.cell a { s.cell a with cons := .done, born := true }, pids := upd s.pids a true }
+    else s
+  | .regPidFail a =>
+    if (s.cell a).cons = .pid then
+      { s with cell := upd s.cell a { s.cell a with cons := if (s.cell a).name.isSome then .rollback else .failed } }
+    else s
+  | .rollback a =>
+    match (s.cell a).cons, (s.cell a).name with
+    | .rollback, some n =>
+      { s with cell := upd s.cell a { s.cell a with cons := .failed }, names := upd s.names n none }
+    | _, _ => s
   | .spawnRemote a name =>
-    if (s.cell a).born = false then
-      { s with cell := upd s.cell a { name := name, remote := true, born := true } }
+    if (s.cell a).born = false ∧ (s.cell a).cons = .none then
+      { s with cell := upd s.cell a { name := name, remote := true, born := true, cons := .done } }
     else s
   | .publish a t st =>
     -- enabled: a reference exists (`born`), this thread is not already inside `set_status` on this cell
